@@ -140,6 +140,35 @@ pub fn run(args: &[String]) {
         drop(c.ensure(k("a"), |dst| dst.write_all(b"value")).unwrap());
         mark("stacked:end");
     }
+    // ---- a builder that is reused after `take()` builds caches with the default settings again (auto_sync on):
+    //      the same `set` through a cache from a fresh builder and through one from a reused builder must issue the
+    //      same system calls (in particular the fsync before publication)
+    {
+        let fresh_dir = root.path().join("fresh");
+        let reused_dir = root.path().join("reused");
+        let mut fb = CacheBuilder::new();
+        fb.plain_writer(&fresh_dir, cap);
+        let fresh = fb.build();
+        let mut rb = CacheBuilder::new();
+        rb.plain_writer(root.path().join("first"), cap);
+        let _first = rb.take().build();
+        rb.plain_writer(&reused_dir, cap);
+        let reused = rb.build();
+        for (tag, c, d) in [("fresh", &fresh, &fresh_dir), ("reused", &reused, &reused_dir)] {
+            let tmp = d.join(".kismet_temp");
+            let v0 = value_in(&tmp, "v0");
+            c.set(k("warm"), &v0).unwrap();
+            let v1 = value_in(&tmp, "v1");
+            let v2 = value_in(&tmp, "v2");
+            mark(&format!("{}:set-new", tag));
+            c.set(k("a"), &v1).unwrap();
+            mark(&format!("{}:ensure-miss", tag));
+            drop(c.ensure(k("b"), |dst| dst.write_all(b"value")).unwrap());
+            mark(&format!("{}:put-new", tag));
+            c.put(k("c"), &v2).unwrap();
+            mark(&format!("{}:end", tag));
+        }
+    }
     // ---- C06: a put onto an entry that another name still links to (e.g. a reader's backup hard link) ---------
     if with_linked_put {
         let dir = root.path().join("linked");
